@@ -3,42 +3,28 @@ package main
 import (
 	"fmt"
 	"os"
-	"sort"
-	"strings"
 
 	"golang.org/x/tools/go/ssa"
 
 	"verif/checker/eng"
 )
 
-// scratch: lists the non-module callees of the named functions (and their same-package helper cluster)
 func main() {
 	p, err := eng.Load(eng.LoadConfig{})
 	if err != nil {
 		panic(err)
 	}
-	for _, name := range os.Args[1:] {
-		fn := p.Func(name)
-		if fn == nil {
-			fmt.Println(name, "NOT FOUND")
-			continue
+	fn := p.Func("contentstream.isLetter")
+	fn.WriteTo(os.Stdout)
+	S := eng.ByteReach(fn, func(v ssa.Value) bool { _, ok := v.(*ssa.Parameter); return ok }, func(in ssa.Instruction) bool {
+		_, ok := in.(*ssa.Return)
+		return ok
+	}, nil)
+	n := 0
+	for b := 0; b < 256; b++ {
+		if S[b] {
+			n++
 		}
-		set := map[string]bool{}
-		for _, h := range eng.Cluster(fn, 2) {
-			eng.Instrs(h, true, func(in ssa.Instruction) {
-				if ci, ok := in.(ssa.CallInstruction); ok {
-					n := eng.CalleeName(ci)
-					if strings.HasPrefix(n, "strings.") || strings.HasPrefix(n, "bytes.") || strings.HasPrefix(n, "unicode") {
-						set[n] = true
-					}
-				}
-			})
-		}
-		var l []string
-		for k := range set {
-			l = append(l, k)
-		}
-		sort.Strings(l)
-		fmt.Println(name, l)
 	}
+	fmt.Println(n)
 }
